@@ -364,6 +364,17 @@ for na in (1, 2, 3):
                     got = bool(molden._is_normalized_properly(OBASIS, ATCOORDS, a, b, thr))
                     if got != want and len(fails) < 5:
                         fails.append({"norba": na, "norbb": nb, "threshold": thr, "column": spot, "norm error / threshold": factor, "expected": want, "got": got})
+# a norm that is not a number (NaN coefficient, negative exponent) is not "within the threshold"
+for na in (1, 2, 3):
+    for nb in (None, 2):
+        for spin, j in [("a", j) for j in range(na)] + [("b", j) for j in range(nb or 0)]:
+            a = np.eye(5)[:, :na].copy()
+            b = None if nb is None else np.eye(5)[:, 1:1 + nb].copy()
+            (a if spin == "a" else b)[0, j] = np.nan
+            n += 1
+            got = bool(molden._is_normalized_properly(OBASIS, ATCOORDS, a, b, 1e-4))
+            if got and len(fails) < 5:
+                fails.append({"norba": na, "norbb": nb, "column": (spin, j), "norm": "nan", "expected": False, "got": got})
 print(json.dumps({"cases": n, "fails": fails}))
 """
 
@@ -375,7 +386,7 @@ def norm_test(chk):
         chk.fault("norm test script crashed: " + out.stderr[-800:])
         return
     res = json.loads(out.stdout.strip().splitlines()[-1])
-    chk.add_bounded("norm-test._is_normalized_properly-sees-every-alpha-and-beta-column", "identity overlap; 1..3 alpha and 0..3 beta columns; one column at a time with a norm error of 2x / 0.5x the threshold; thresholds 1e-6, 1e-4, 1e-2", res["cases"], res["fails"], replay_script=NORM_SCRIPT + "\nif fails:\n    print('REPRODUCED'); sys.exit(1)\n")
+    chk.add_bounded("norm-test._is_normalized_properly-sees-every-alpha-and-beta-column", "identity overlap; 1..3 alpha and 0..3 beta columns; one column at a time with a norm error of 2x / 0.5x the threshold, or with a NaN norm; thresholds 1e-6, 1e-4, 1e-2", res["cases"], res["fails"], replay_script=NORM_SCRIPT + "\nif fails:\n    print('REPRODUCED'); sys.exit(1)\n")
 
 
 def vendor_probe(chk):
